@@ -168,7 +168,7 @@ def fold(rep: Report, prop, jobs, results, explanation, extra_cov=None, min_conc
         seen.add(key)
         job = by_id.get(f["job"], {})
         payload = {"property": prop, "job": {k: job.get(k) for k in ("id", "schema", "rows", "A", "B", "ordered", "assume", "compare", "check_cols", "b_may_raise",
-                                                                      "allow_window_ties", "inf", "kf_on", "renaming") if k in job}, "input": f.get("input"),
+                                                                      "allow_window_ties", "inf", "int_div_exact", "kf_on", "renaming") if k in job}, "input": f.get("input"),
                    "why": f["why"], "engines": f.get("engines")}
         rep.violation(payload, f"{f['job']}: {f['why']} input={json.dumps(f.get('input'), default=str)[:300]}")
     for f in unconfirmed:
